@@ -65,6 +65,7 @@ def accessors(name, hdr):
 
 
 _src = {}
+_bodies = {}
 def option_backed(cls, name):
     """True if K::name() const is implemented by looking an option up (typed option getters belong to C04, and throw when the option is absent)"""
     if not _src:
@@ -130,8 +131,16 @@ def norm_t(t):
     return t.replace(' ', '')
 
 
+_tab = {}
 def table():
     """[(class, header, [(field, type)], [all getters (name, type)])]"""
+    if 't' in _tab: return _tab['t']
+    res = _table()
+    _tab['t'] = res
+    return res
+
+
+def _table():
     res = []
     by = {c[0]: c for c in tinsinfo.classes()}
     for name, hdr, base, flag in tinsinfo.pdu_classes():
